@@ -1,12 +1,29 @@
-(* C20 - the constructor GENERATED from UnionFind.__init__ (Gen.v) is the model's [init_from]. *)
-From Coq Require Import ZArith List Bool.
+(* C20 - the `add` and the constructor GENERATED from unionfind.py (Gen.v) are the model's [add] / [init_from]. *)
+From Coq Require Import ZArith List Bool Lia.
 Import ListNotations.
 Require Import MV.C20.Model MV.C20.Gen.
 
+Lemma uf_add_eq : forall (s : uf) (x : Z), uf_add s x = add s x.
+Proof.
+  intros s x. unfold uf_add, uf_add_new, add. destruct (mem s x); [reflexivity|].
+  f_equal; lia.
+Qed.
+
+Lemma uf_init_eq : forall l : list Z, uf_init l = init_from l.
+Proof.
+  intros l. unfold uf_init, init_from. change uf_new with uf_empty.
+  generalize uf_empty. induction l as [|x t IH]; intros s; simpl; [reflexivity|].
+  rewrite uf_add_eq. apply IH.
+Qed.
+
 Lemma uf_constructor :
   uf_new = uf_empty /\ uf_init_none = [] /\
+  (forall (s : uf) (x : Z), uf_add s x = add s x) /\
   forall l : list Z, uf_init l = init_from l /\ uf_init l = reach_from l [].
-Proof. split; [reflexivity|]. split; [reflexivity|]. intros l. split; reflexivity. Qed.
+Proof.
+  split; [reflexivity|]. split; [reflexivity|]. split; [exact uf_add_eq|].
+  intros l. split; [apply uf_init_eq|]. rewrite uf_init_eq. reflexivity.
+Qed.
 
 Example ex_uf_init : n_elts (uf_init [4; 7; 4; 9; 7; 4]%Z) = 3 /\ n_elts (uf_init uf_init_none) = 0.
 Proof. split; vm_compute; reflexivity. Qed.
